@@ -1,6 +1,6 @@
 """Independent confirmation of a round-4 ("file-targeted, any property") seeded change.
 
-usage: python tools/verify_seed4.py F03 [--tests] [--also C07,C19]
+usage: python tools/verify_seed4.py F03 [--round 5] [--tests] [--also C07,C19]
   1. copies /tmp/seed4_<F>/{patch.diff,demo.py,NOTE.md} to /verif/seeded/R4_<F>/ (if the source exists)
   2. clean scratch copy of /repo HEAD: demo must exit 0; with the patch applied it must exit 1
   3. with --tests: the 117 stable tests must pass with the patch applied
@@ -12,8 +12,9 @@ import json, os, re, shutil, subprocess, sys, tempfile, time
 
 VERIF = os.path.dirname(os.path.dirname(os.path.abspath(__file__)))
 fid = sys.argv[1]
-src = f"/tmp/seed4_{fid}"
-dst = os.path.join(VERIF, "seeded", f"R4_{fid}")
+rnd = sys.argv[sys.argv.index("--round") + 1] if "--round" in sys.argv else "4"
+src = f"/tmp/seed{rnd}_{fid}"
+dst = os.path.join(VERIF, "seeded", f"R{rnd}_{fid}")
 os.makedirs(dst, exist_ok=True)
 for f in ("patch.diff", "demo.py", "NOTE.md"):
     if os.path.exists(os.path.join(src, f)):
@@ -22,7 +23,7 @@ note = open(os.path.join(dst, "NOTE.md")).read()
 cid = re.search(r"PROPERTY:\s*(C\d\d)", note).group(1)
 also = sys.argv[sys.argv.index("--also") + 1].split(",") if "--also" in sys.argv else []
 work = tempfile.mkdtemp(prefix=f"vseed4-{fid}-", dir="/dev/shm")
-meta = {"property": cid, "round": 4, "ran": []}
+meta = {"property": cid, "round": int(rnd), "ran": []}
 _old = {}
 if os.path.exists(os.path.join(dst, "meta.json")):
     try:
